@@ -6,12 +6,17 @@
 package chain
 
 import (
+	"crypto/sha256"
+	"encoding/binary"
+	"encoding/hex"
 	"encoding/json"
 	"fmt"
 	"math/big"
 	"os"
+	"reflect"
 	"runtime/debug"
 	"sort"
+	"strings"
 	"sync"
 	"time"
 
@@ -377,6 +382,30 @@ func (c *Chain) EndBlock(dt time.Duration, txs ...[]byte) (resp *abci.ResponseFi
 		return nil, err
 	}
 	c.LastBlock = resp
+	if Recorder != nil {
+		var parts [][]byte
+		for _, r := range resp.TxResults {
+			bz, _ := r.Marshal()
+			parts = append(parts, bz)
+		}
+		var evb []byte
+		for _, e := range resp.Events {
+			bz, _ := e.Marshal()
+			evb = append(evb, bz...)
+		}
+		var vub []byte
+		for _, u := range resp.ValidatorUpdates {
+			bz, _ := u.Marshal()
+			vub = append(vub, bz...)
+		}
+		var full []string
+		for _, e := range resp.Events {
+			for _, a := range e.Attributes {
+				full = append(full, e.Type+"."+a.Key+"="+a.Value)
+			}
+		}
+		Recorder(fmt.Sprintf("block h=%d apphash=%x txresults=%s events=%s valupdates=%s", c.Height, resp.AppHash, digest(parts...), digest(evb), digest(vub)), strings.Join(full, "\x1f"))
+	}
 	if dt <= 0 {
 		dt = c.Cfg.BlockTime
 	}
@@ -421,6 +450,63 @@ func (r Result) ErrString() string {
 	return ""
 }
 
+// Recorder, when set, receives one line per executed operation and per committed block: the
+// observable outcome (error text, events, response bytes, application hash) reduced to digests.
+// Used by the determinism replays (C17); nil otherwise.
+var Recorder func(line, full string)
+
+func digest(parts ...[]byte) string {
+	h := sha256.New()
+	for _, p := range parts {
+		var l [8]byte
+		binary.BigEndian.PutUint64(l[:], uint64(len(p)))
+		h.Write(l[:])
+		h.Write(p)
+	}
+	return hex.EncodeToString(h.Sum(nil)[:12])
+}
+
+func eventsBytes(evs sdk.Events) []byte {
+	var b []byte
+	for _, e := range evs {
+		b = append(b, e.Type...)
+		b = append(b, 0)
+		for _, a := range e.Attributes {
+			b = append(b, a.Key...)
+			b = append(b, '=')
+			b = append(b, a.Value...)
+			b = append(b, 0)
+		}
+		b = append(b, 1)
+	}
+	return b
+}
+
+func record(res Result) {
+	if Recorder == nil {
+		return
+	}
+	var rb []byte
+	if m, ok := res.Resp.(interface{ Marshal() ([]byte, error) }); ok && res.Resp != nil && !reflect.ValueOf(res.Resp).IsNil() {
+		rb, _ = m.Marshal()
+	}
+	errS := ""
+	if res.Panic != nil {
+		errS = fmt.Sprintf("panic: %v", res.Panic)
+	} else if res.Err != nil {
+		errS = res.Err.Error()
+	}
+	line := fmt.Sprintf("op ok=%v err=%s events=%s resp=%s", res.OK(), digest([]byte(errS)), digest(eventsBytes(res.Events)), digest(rb))
+	var full []string
+	full = append(full, "err="+errS)
+	for _, e := range res.Events {
+		for _, a := range e.Attributes {
+			full = append(full, e.Type+"."+a.Key+"="+a.Value)
+		}
+	}
+	Recorder(line, strings.Join(full, "\x1f"))
+}
+
 // RunOn executes fn on a branch of ctx that is written back only if fn returns nil and
 // does not panic: baseapp's per-transaction rule (runTx: cache, recover, write on success).
 func RunOn(ctx sdk.Context, fn func(ctx sdk.Context) (interface{}, error)) (res Result) {
@@ -440,6 +526,7 @@ func RunOn(ctx sdk.Context, fn func(ctx sdk.Context) (interface{}, error)) (res 
 		res.Events = cctx.EventManager().Events()
 		ctx.EventManager().EmitEvents(res.Events)
 	}
+	record(res)
 	return res
 }
 
